@@ -8,7 +8,7 @@
 (* and validation continues, so one run reports every rejection.           *)
 (* The orchestrator (bin/check) attributes failed conjuncts to properties. *)
 (***************************************************************************)
-EXTENDS Arith, AlgArith, AlgNumDigits, Order, Text, Conv, BigIntM, ErrDec, Roots, Transc, Json
+EXTENDS Arith, AlgArith, AlgQuo, AlgQuantize, AlgNumDigits, Order, Text, Conv, BigIntM, ErrDec, Roots, Transc, Json
 T == ndJsonDeserialize("trace.ndjson")
 VARIABLE l
 
@@ -406,13 +406,22 @@ DriftArith(ev) ==
        [] OTHER -> LET v == AlgCmp(ev.x, ev.y) IN
                    ~(ev.res.f = FIN /\ ev.res.e = 0 /\ ev.fl = 0 /\ ev.res.c = (IF v = 0 THEN <<>> ELSE One) /\ (v # 0 => ev.res.n = (v < 0)))
 
+\* Context.Quo (finite operands, non-zero divisor) against AlgQuo and Context.Quantize against AlgQuantize
+DriftQuoQuantize(ev) ==
+  ev.k = "a" /\ ev.op \in {"quo", "quantize"} /\ ev.panic = "" /\ ~SysFlag(ev) /\ WFContext(ev.ctx) /\ ev.ctx.p > 0
+  /\ ev.x.f = FIN /\ (ev.op = "quo" => (ev.y.f = FIN /\ ~IsZero(ev.y.c) /\ ev.x.e - ev.y.e \in -400..400))
+  /\ (ev.op = "quantize" => ev.q - ev.x.e \in -400..400) /\
+  LET a == IF ev.op = "quo" THEN AlgQuo(ev.ctx, ev.x, ev.y) ELSE AlgQuantize(ev.ctx, ev.x, ev.q)
+      n == IF ev.op = "quo" THEN (ev.x.n # ev.y.n) ELSE ev.x.n
+  IN ~(a.f = ev.res.f /\ (a.f = FIN => (a.c = ev.res.c /\ a.e = ev.res.e /\ ev.res.n = n)) /\ BitSet(ev.fl) = a.fl)
+
 \* table.go NumDigits against its transcription AlgNumDigits (values up to 240 digits)
 DriftNumDigits(ev) ==
   ev.k = "nd" /\ ev.panic = "" /\ ev.p10 < 0 /\ Len(ev.b) <= 80 /\ NumDigitsAlg(ev.b) # ev.nd
 
 Init == l = 0
 Next == l < Len(T) /\ l' = l + 1
-Inv == l = 0 \/ (/\ ((DriftRound(T[l]) \/ DriftArith(T[l]) \/ DriftNumDigits(T[l])) => PrintT(<<"DRIFT", l>>))
+Inv == l = 0 \/ (/\ ((DriftRound(T[l]) \/ DriftArith(T[l]) \/ DriftQuoQuantize(T[l]) \/ DriftNumDigits(T[l])) => PrintT(<<"DRIFT", l, T[l].k, IF T[l].k = "a" THEN T[l].op ELSE "">>))
                   /\ LET v == Verdict(T[l]) IN (v = {} \/ PrintT(<<"VIOL", l, v>>)))
 Done == PrintT(<<"VALIDATED", Len(T)>>)
 =============================================================================
